@@ -140,8 +140,43 @@ def correspondence(ctx):
     _teardown(ctx, rep, ['basic', 'fleet', 'noswitch-projected', 'long', 'three-fits-decimal'], ctx.n(40, 800), 'teardown')
 
 
+def _k1_residue_witness(rep):
+    """Known finding K1 seen at removal: the target ship leaves its fit while targeted."""
+    from eos import Fit, ModuleHigh, Ship, SolarSystem, State
+    from eos.const.eos import ModAffecteeFilter, ModAggregateMode, ModDomain, ModOperator
+    from eos.const.eve import EffectCategoryId
+    from eos.eve_obj.modifier import DogmaModifier
+    from harness import mem
+    ch = mem.MemCache()
+    a = ch.mkattr()
+    mod = DogmaModifier(affectee_filter=ModAffecteeFilter.domain, affectee_domain=ModDomain.target,
+                        affectee_attr_id=a.id, operator=ModOperator.post_percent,
+                        aggregate_mode=ModAggregateMode.stack, affector_attr_id=a.id)
+    e = ch.mkeffect(category_id=EffectCategoryId.target, modifiers=(mod,))
+    modt = ch.mktype(attrs={a.id: 10}, effects=[e], default_effect=e)
+    shipt = ch.mktype(attrs={a.id: 100})
+    ss = SolarSystem(source=mem.source(ch))
+    f, g = Fit(solar_system=ss), Fit(solar_system=ss)
+    m = ModuleHigh(modt.id, state=State.active)
+    f.modules.high.append(m)
+    s = Ship(shipt.id)
+    g.ship = s
+    m.target = s
+    g.ship = None                 # the target leaves while targeted
+    f.modules.high.remove(m)
+    f.character = None
+    g.character = None
+    ss.fits.clear()
+    res = R.residue(ss)
+    rep.case(kind='k1-witness')
+    if res:
+        rep.violate('K1 witness: target removed while targeted leaves %d stale register entries' % len(res),
+                    {'witness': 'target-leaves-while-targeted', 'residue': [r[0] for r in res[:3]]}, cls='K1')
+
+
 def oracle(ctx):
-    pass        # the emptiness walk runs inside `correspondence` (it needs the same histories)
+    # the emptiness walk itself runs inside `correspondence` (it needs the same histories)
+    _k1_residue_witness(ctx.report)
 
 
 def search(ctx, broken):
